@@ -27,9 +27,15 @@ R = Registry(
         "Encoders are followed through helper functions of engine/url.py / methods of URL (arguments, defaults, "
         "module constants). Between make_url() and the regex, and between the regex groups and URL.create, the "
         "reader applies no str-normalising call (strip/lower/replace/...) that touches a character the writer "
-        "emits literally (R5)."
+        "emits literally (R5). '' is a value, not an absence (R6): wherever the text of a percent-encoded component "
+        "(username / password / database), a query key / value, or what the reader's query accumulator holds for a key is "
+        "tested for its truth value on the round-trip path (_parse_url and helpers, URL.create and its validators, "
+        "render_as_string and helpers), both outcomes leave the same code to run for ''; presence is decided by "
+        "`is None` / membership."
     ),
-    not_decided="round trip of urllib quote/unquote themselves over full unicode; validity of host syntax.",
+    not_decided="round trip of urllib quote/unquote themselves over full unicode; validity of host syntax; explicit "
+                "normalisation such as `if x == '': x = None`; query values given as one-element / empty sequences "
+                "(parsed back as str / dropped: representation, not text).",
 )
 
 URLPY = "engine/url.py"
@@ -1414,7 +1420,7 @@ class _BlankScope:
             return None
         k = self.leaf(e, self)
         if k is not None:
-            return k
+            return k if k.kinds else None
         if isinstance(e, ast.Name):
             if e.id in self._busy:
                 return None
@@ -1753,12 +1759,18 @@ def _blank_scopes(ctx, w, rx, create, blank_fields):
         def leaf(e, _sc):
             if isinstance(e, ast.Call) and _last_name(e) in ("parse_qsl", "parse_qs"):
                 return _K.seq("query-string", _K.text("query-item"))
+            if isinstance(e, ast.Call) and isinstance(e.func, ast.Attribute) and e.func.attr == "groupdict" and blank_fields:
+                # the whole match as a mapping: iterating it yields every group's text (subscripts by name are told apart above)
+                return _K.seq("regex-groups", _K.text("/".join(sorted(blank_fields))))
             if rsc is not None and (isinstance(e, ast.Subscript) or (isinstance(e, ast.Call) and isinstance(e.func, ast.Attribute)
                                                                       and e.func.attr in ("get", "pop", "group") and e.args)):
-                gs = sorted(_groups_of(e, rsc) & blank_fields)
+                allg = _groups_of(e, rsc)
+                gs = sorted(allg & blank_fields)
                 if gs:
                     slot = unparse(e) if isinstance(e, ast.Subscript) else f"{unparse(e.func.value)}[{unparse(e.args[0])}]"
                     return _K({"text"}, "/".join(gs), slot=slot)
+                if allg:
+                    return _K((), "/".join(sorted(allg)))     # the text of a group that cannot be blank (host, port, scheme): not judged
             return None
         return leaf
     follow(_BlankScope(ctx, rx, reader_leaf_for(rx), {}, "reader"), reader_leaf_for, 0, True)
@@ -2204,3 +2216,9 @@ R.mutant("benign-r6-writer-presence-flags", URLPY,
          chain(sub('        if self.database is not None:\n', '        has_database = self.database is not None\n        if has_database:\n'),
                sub('            if self.password is not None:\n                s += ":" + (\n',
                    '            no_password = self.password is None\n            if not no_password:\n                s += ":" + (\n')), None)
+R.mutant("r6-reader-drops-blank-groups", URLPY,
+         sub("        components = m.groupdict()\n", "        components = {g: t for g, t in m.groupdict().items() if t}\n"
+                                                   "        components.update((g, None) for g in m.groupdict() if g not in components)\n"), "C20-R6")
+R.mutant("r6-create-rebinds-blank-username", URLPY,
+         sub('        return cls(\n            cls._assert_str(drivername, "drivername"),\n',
+             '        if not username:\n            username = None\n        return cls(\n            cls._assert_str(drivername, "drivername"),\n'), "C20-R6")
